@@ -137,7 +137,7 @@ func checkAgainstReference(rc *core.RunCtx, cfg Cfg, out *Out) (ref *refexec.Res
 	if out.StockRecover {
 		// recovered panics carry gqlgen's stock message, at the path of the panicking position
 		for i, e := range ref.Errors {
-			if strings.HasPrefix(e.Class, "P:") || e.Class == "M:panic" || e.Class == "A:panic" {
+			if strings.HasPrefix(e.Class, "P:") || e.Class == "M:panic" || e.Class == "A:panic" || e.Class == "I:panic" || e.Class == "R:panic" {
 				ref.Errors[i].Class = "gqlgen"
 			}
 		}
@@ -336,6 +336,14 @@ func copyPlan(p *refexec.Plan) *refexec.Plan {
 	c := *p
 	c.Faults = map[string]refexec.Kind{}
 	c.DirFaults = map[string]refexec.DirKind{}
+	c.IcptFaults = map[string]refexec.Kind{}
+	c.RootIcptPanics = map[string]bool{}
+	for k, v := range p.IcptFaults {
+		c.IcptFaults[k] = v
+	}
+	for k, v := range p.RootIcptPanics {
+		c.RootIcptPanics[k] = v
+	}
 	for k, v := range p.Faults {
 		c.Faults[k] = v
 	}
@@ -417,6 +425,14 @@ func runC04(rc *core.RunCtx) {
 	for _, p := range ref0.DirCalls {
 		points = append(points, faultPoint{"dir", p})
 	}
+	// the field interceptor (AroundFields) at every resolver-backed position, and the root-field
+	// interceptor (AroundRootFields) at every root field that ran
+	for _, p := range ref0.Resolved {
+		points = append(points, faultPoint{"icpt", p})
+		if !strings.ContainsAny(p, ".[") {
+			points = append(points, faultPoint{"rooticpt", p})
+		}
+	}
 	// values completed through a user marshal function (scalar Tag, enum Tone; single, and each
 	// list element): the function panics while the value is completed
 	for _, p := range ref0.EagerPoints {
@@ -448,6 +464,16 @@ func runC04(rc *core.RunCtx) {
 			}
 			plan.DirFaults[fp.Path] = refexec.DError
 			return "directive error at " + fp.Path
+		case "icpt":
+			if panicKind {
+				plan.IcptFaults[fp.Path] = refexec.KPanic
+				return "field interceptor panic at " + fp.Path
+			}
+			plan.IcptFaults[fp.Path] = refexec.KError
+			return "field interceptor error at " + fp.Path
+		case "rooticpt":
+			plan.RootIcptPanics[fp.Path] = true
+			return "root-field interceptor panic at " + fp.Path
 		}
 		plan.Faults[fp.Path] = refexec.KMarshalPanic
 		if fp.Kind == "eager" {
@@ -457,7 +483,7 @@ func runC04(rc *core.RunCtx) {
 	}
 	for _, fp := range points {
 		for _, panicKind := range []bool{false, true} {
-			if (fp.Kind == "marshal" || fp.Kind == "eager") && !panicKind {
+			if (fp.Kind == "marshal" || fp.Kind == "eager" || fp.Kind == "rooticpt") && !panicKind {
 				continue
 			}
 			plan := copyPlan(base)
